@@ -19,7 +19,7 @@
 
    Also here: the executable DECLARATIVE specification of C02 ([spec_change_b],
    [diff_spec_b]) — set-based, it never looks at the loop or at [rmdir]. *)
-From Coq Require Import List NArith Bool.
+From Coq Require Import List NArith Bool Sorting.Sorted.
 From FS Require Import Sx Model.Path Model.Stat.
 Import ListNotations.
 Open Scope N_scope.
@@ -54,6 +54,15 @@ Definition same_file (d : differ) (a b : stat) : bool :=
       else compare_stat a b
     else compare_stat a b
   end.
+
+(* the identity key of the specification (C02): type + permission bits (mode), uid, gid, link
+   target, device numbers and, for non-directories, size and mtime.  Proofs/DiffP.v
+   (same_file_is_identity) shows that sameFile compares exactly this key. *)
+Definition identity_key (s : stat) : list N * bytes :=
+  ([st_mode s; st_uid s; st_gid s; st_devmajor s; st_devminor s;
+    if st_is_dir s then 0 else st_size s; if st_is_dir s then 0 else st_mtime s], st_linkname s).
+Definition key_eqb (a b : list N * bytes) : bool :=
+  bytes_eqb (fst a) (fst b) && bytes_eqb (snd a) (snd b).
 
 (* rmdir = f1.path + string(filepath.Separator) *)
 Definition rm_of (p : bytes) : bytes := p ++ [sep].
@@ -185,3 +194,44 @@ Definition closed_b (L : list stat) : bool :=
 Definition listing_ok_b (L : list stat) : bool := sorted_b L && closed_b L.
 
 End Diff.
+
+(* ------------------------------------------------------------------------------------
+   The same specification as propositions (what the theorems of C02 / C05 are stated with).
+   [spec_change_b] / [listing_ok_b] above are their executable forms (Proofs/DiffP.v:
+   listing_ok_b_iff, Proofs/DiffSpecP.v: diff_spec_b_iff). *)
+Definition plt (a b : stat) : Prop := compare_path (st_path a) (st_path b) = Lt.
+(* strictly ascending in path order (hence duplicate-free) *)
+Definition sorted (L : list stat) : Prop := StronglySorted plt L.
+(* every "/"-prefix of a listed path is the path of a listed directory *)
+Definition closed (L : list stat) : Prop :=
+  forall s, In s L -> forall q r, st_path s = q ++ sep :: r ->
+  exists t, In t L /\ st_path t = q /\ st_is_dir t = true.
+Definition wf_listing (L : list stat) : Prop := sorted L /\ closed L.
+Definition paths (L : list stat) : list bytes := map st_path L.
+Definition notin (L : list stat) (p : bytes) : Prop := forall s, In s L -> st_path s <> p.
+
+Section Spec.
+Variable flt : stat -> stat.
+Variable d : differ.
+Variables A B : list stat.
+
+(* a directory of A that is absent from B, or a non-directory there *)
+Definition removed_root (a : stat) : Prop :=
+  In a A /\ st_is_dir a = true /\
+  (notin B (st_path a) \/ exists b, In b B /\ st_path b = st_path a /\ st_is_dir (flt b) = false).
+
+Definition hidden_by (A0 : list stat) (p : bytes) : Prop :=
+  exists a, In a A0 /\ removed_root a /\ above (st_path a) p = true.
+(* p lies below a removed root *)
+Definition hidden (p : bytes) : Prop := hidden_by A p.
+
+Definition spec_change (c : change) : Prop :=
+  match c with
+  | (KAdd, p, Some b) => In b B /\ st_path b = p /\ notin A p
+  | (KModify, p, Some b) =>
+      In b B /\ st_path b = p /\ exists a, In a A /\ st_path a = p /\ same_file d a (flt b) = false
+  | (KDelete, p, None) => (exists a, In a A /\ st_path a = p) /\ notin B p /\ ~ hidden p
+  | _ => False
+  end.
+End Spec.
+
